@@ -338,7 +338,7 @@ impl World for WorldG {
         let ngw = if two { 2 } else { 1 };
         let mut gateways = vec![];
         let delays: &[u64] = &[0, 1, 10, 3600, 1 << 40];
-        let rets: &[u64] = &[0, 1, 2, 3, 10];
+        let rets: &[u64] = &[0, 1, 2, 3, 10, 1 << 40, u64::MAX - 2, u64::MAX];
         let mut guess = Guess { latest: vec![], installed: vec![], approved: vec![], next_fresh: 0 };
         let shared_first = rng.chance(3, 5);
         for g in 0..ngw {
@@ -360,7 +360,7 @@ impl World for WorldG {
             };
             let retention = match focus {
                 "C08" => *rng.pick(rets),
-                _ => *rng.pick(&[0u64, 1, 1, 2, 10]),
+                _ => *rng.pick(&[0u64, 1, 1, 2, 10, u64::MAX]),
             };
             guess.latest.push(*initial.last().unwrap());
             guess.installed.push(initial.clone());
